@@ -4,6 +4,7 @@
      reply   : = <tok> <tok> ...           (or  ! <message>  on a driver error)
    While computing a reply the model may call back for a cryptographic
    primitive:   ? <prim> <hex> ...   and reads one line  <hex>  as the answer. *)
+module BZ = Z   (* Zarith, before the extracted model shadows Z *)
 open Model
 
 (* ---------- conversions ---------- *)
@@ -20,17 +21,17 @@ let int_of_nat n = let rec go acc = function O -> acc | S m -> go (acc + 1) m in
 
 (* big N <-> decimal string through Zarith *)
 let rec z_of_pos = function
-  | XH -> Z.one
-  | XO p -> Z.shift_left (z_of_pos p) 1
-  | XI p -> Z.succ (Z.shift_left (z_of_pos p) 1)
-let z_of_n = function N0 -> Z.zero | Npos p -> z_of_pos p
+  | XH -> BZ.one
+  | XO p -> BZ.shift_left (z_of_pos p) 1
+  | XI p -> BZ.succ (BZ.shift_left (z_of_pos p) 1)
+let z_of_n = function N0 -> BZ.zero | Npos p -> z_of_pos p
 let rec pos_of_z z =
-  if Z.equal z Z.one then XH
-  else if Z.is_even z then XO (pos_of_z (Z.shift_right z 1))
-  else XI (pos_of_z (Z.shift_right z 1))
-let n_of_z z = if Z.sign z = 0 then N0 else Npos (pos_of_z z)
-let n_of_string s = n_of_z (Z.of_string s)
-let string_of_n n = Z.to_string (z_of_n n)
+  if BZ.equal z BZ.one then XH
+  else if BZ.is_even z then XO (pos_of_z (BZ.shift_right z 1))
+  else XI (pos_of_z (BZ.shift_right z 1))
+let n_of_z z = if BZ.sign z = 0 then N0 else Npos (pos_of_z z)
+let n_of_string s = n_of_z (BZ.of_string s)
+let string_of_n n = BZ.to_string (z_of_n n)
 
 let hexdig = "0123456789abcdef"
 let bytes_to_hex (l : byte list) : string =
@@ -74,6 +75,66 @@ let bx_err_str = function
   | Some (CorruptInput off) -> "corrupt:" ^ string_of_n off
   | Some InvalidEncodingLength -> "badlen"
 
+(* ---------- crypto record backed by oracle callbacks ---------- *)
+let h2b = hex_to_bytes
+let cr : crypto = {
+  sha512 = (fun x -> h2b (oracle "sha512" [x]));
+  hmac512 = (fun k m -> h2b (oracle "hmac512" [k; m]));
+  sb_seal = (fun k n m -> h2b (oracle "sb_seal" [k; n; m]));
+  sb_open = (fun k n b -> match oracle "sb_open" [k; n; b] with "!" -> None | h -> Some (h2b h));
+  dh_pub = (fun s -> h2b (oracle "dh_pub" [s]));
+  dh_shared = (fun s p -> h2b (oracle "dh_shared" [s; p]));
+  ed_pub = (fun s -> h2b (oracle "ed_pub" [s]));
+  ed_sign = (fun s m -> h2b (oracle "ed_sign" [s; m]));
+  ed_verify = (fun p m sg -> oracle "ed_verify" [p; m; sg] = "1");
+}
+
+(* ---------- more conversions ---------- *)
+let z_of_int i = if i = 0 then Z0 else if i > 0 then Zpos (pos_of_int i) else Zneg (pos_of_int (-i))
+let version_of s = match String.split_on_char '.' s with
+  | [a; b] -> { vmaj = z_of_int (int_of_string a); vmin = z_of_int (int_of_string b) }
+  | _ -> failwith "version"
+let validator_of s =
+  if s = "any" then AnyKnownMajor
+  else match String.split_on_char ':' s with
+    | ["single"; v] -> Single (version_of v)
+    | _ -> failwith "validator"
+(* list of byte strings: items joined by ','; "_" is the empty list *)
+let blist_of s = if s = "_" then [] else List.map h2b (String.split_on_char ',' s)
+let blist_str l = match l with [] -> "_" | _ -> String.concat "," (List.map bytes_to_hex l)
+
+let err_str = function
+  | EOF -> "EOF" | ErrUnexpectedEOF -> "ErrUnexpectedEOF"
+  | ErrFailedToReadHeaderBytes -> "ErrFailedToReadHeaderBytes" | ErrDecode -> "ErrDecode"
+  | ErrBadVersion -> "ErrBadVersion" | ErrWrongMessageType -> "ErrWrongMessageType"
+  | ErrNotASaltpackMessage -> "ErrNotASaltpackMessage" | ErrNoSenderKey -> "ErrNoSenderKey"
+  | ErrNoDecryptionKey -> "ErrNoDecryptionKey" | ErrBadEphemeralKey -> "ErrBadEphemeralKey"
+  | ErrBadSenderKeySecretbox -> "ErrBadSenderKeySecretbox" | ErrBadBoxKey -> "ErrBadBoxKey"
+  | ErrBadSymmetricKey -> "ErrBadSymmetricKey"
+  | ErrBadTag n -> "ErrBadTag:" ^ string_of_n n | ErrBadCiphertext n -> "ErrBadCiphertext:" ^ string_of_n n
+  | ErrBadSignature -> "ErrBadSignature" | ErrTrailingGarbage -> "ErrTrailingGarbage"
+  | ErrUnexpectedEmptyBlock -> "ErrUnexpectedEmptyBlock" | ErrPacketOverflow -> "ErrPacketOverflow"
+  | ErrDecryptionFailed -> "ErrDecryptionFailed" | ErrBadLookup -> "ErrBadLookup"
+  | ErrWrongNumberOfKeys -> "ErrWrongNumberOfKeys" | ErrBadReceivers -> "ErrBadReceivers"
+  | ErrRepeatedKey -> "ErrRepeatedKey" | ErrInvalidParameter -> "ErrInvalidParameter"
+  | ErrRand -> "ErrRand" | ErrBadFrame -> "ErrBadFrame" | ErrOverflow -> "ErrOverflow"
+  | ErrBxCorrupt n -> "ErrBxCorrupt:" ^ string_of_n n | ErrBxLength -> "ErrBxLength"
+  | ErrIO -> "ErrIO" | Unmodelled -> "Unmodelled" | Panic n -> "Panic:" ^ string_of_n n
+
+
+let b01 b = if b then "1" else "0"
+let sender_of s = if s = "anon" then None else Some (h2b s)
+(* "pk:h" (hidden) or "pk:v" (visible), ','-joined; "_" empty *)
+let rcpts_of s = if s = "_" then [] else
+    List.map (fun it -> match String.split_on_char ':' it with
+        | [pk; f] -> (h2b pk, f = "h") | _ -> failwith "rcpt") (String.split_on_char ',' s)
+(* "a:b" pairs *)
+let pairs_of s = if s = "_" then [] else
+    List.map (fun it -> match String.split_on_char ':' it with
+        | [a; b] -> (h2b a, h2b b) | _ -> failwith "pair") (String.split_on_char ',' s)
+let ring_of keys senders =
+  { kr_keys = pairs_of keys; kr_senders = (if senders = "all" then None else Some (blist_of senders)) }
+
 let ints_to_str l = match l with [] -> "-" | _ -> String.concat "," (List.map string_of_int l)
 let str_to_ints s = if s = "-" then [] else List.map int_of_string (String.split_on_char ',' s)
 
@@ -102,6 +163,47 @@ let ops : (string * (string list -> string)) list = [
   "fisher_yates", (function [n; js] ->
       let l = List.init (int_of_string n) n_of_int in
       ints_to_str (List.map int_of_n (m_fisher_yates_N l (List.map nat_of_int (str_to_ints js)))) | _ -> failwith "args");
+  (* ---- signing ---- *)
+  "sign_attached", (function [v; sk; pieces; rng] ->
+      (match m_sign_attached_stream cr (version_of v) (h2b sk) (blist_of pieces) (h2b rng) with
+       | Ok (out, rest) -> "ok " ^ bytes_to_hex out ^ " " ^ string_of_int (List.length rest)
+       | Err e -> "err " ^ err_str e) | _ -> failwith "args");
+  "sign_detached", (function [v; sk; msg; rng] ->
+      (match m_sign_detached cr (version_of v) (h2b sk) (h2b msg) (h2b rng) with
+       | Ok (out, rest) -> "ok " ^ bytes_to_hex out ^ " " ^ string_of_int (List.length rest)
+       | Err e -> "err " ^ err_str e) | _ -> failwith "args");
+  "verify_stream", (function [vd; ring; input] ->
+      (match m_verify_stream cr (validator_of vd) (blist_of ring) (h2b input) with
+       | Ok (pk, out) -> "ok " ^ bytes_to_hex pk ^ " " ^ bytes_to_hex (List.concat out.so_chunks) ^ " " ^ err_str out.so_end
+       | Err e -> "err " ^ err_str e) | _ -> failwith "args");
+  "verify_detached", (function [vd; ring; msg; sg] ->
+      (match m_verify_detached cr (validator_of vd) (blist_of ring) (h2b msg) (h2b sg) with
+       | Ok pk -> "ok " ^ bytes_to_hex pk
+       | Err e -> "err " ^ err_str e) | _ -> failwith "args");
+  (* ---- encryption ---- *)
+  "seal", (function [v; sender; rcpts; pieces; rng] ->
+      (match m_seal_stream cr (version_of v) (sender_of sender) (rcpts_of rcpts) (blist_of pieces) (h2b rng) with
+       | Ok (out, rest) -> "ok " ^ bytes_to_hex out ^ " " ^ string_of_int (List.length rest)
+       | Err e -> "err " ^ err_str e) | _ -> failwith "args");
+  "open", (function [vd; keys; senders; input] ->
+      (match m_open_stream cr (validator_of vd) (ring_of keys senders) (h2b input) with
+       | Ok (m, out) ->
+         String.concat " " ["ok"; bytes_to_hex m.mki_sender; b01 m.mki_sender_anon; bytes_to_hex m.mki_receiver;
+                            b01 m.mki_receiver_anon; blist_str m.mki_named; string_of_n m.mki_num_anon;
+                            bytes_to_hex (List.concat out.so_chunks); err_str out.so_end]
+       | Err e -> "err " ^ err_str e) | _ -> failwith "args");
+  (* ---- signcryption ---- *)
+  "sc_seal", (function [signer; boxes; syms; pieces; rng] ->
+      (match m_signcrypt_seal_stream cr (sender_of signer) (blist_of boxes) (pairs_of syms) (blist_of pieces) (h2b rng) with
+       | Ok (out, rest) -> "ok " ^ bytes_to_hex out ^ " " ^ string_of_int (List.length rest)
+       | Err e -> "err " ^ err_str e) | _ -> failwith "args");
+  "sc_open", (function [keys; signers; resolver; input] ->
+      let rv = if resolver = "none" then None else Some (pairs_of resolver) in
+      (match m_signcrypt_open_stream cr (ring_of keys "all") (blist_of signers) rv (h2b input) with
+       | Ok (s, out) ->
+         String.concat " " ["ok"; (match s with None -> "anon" | Some k -> bytes_to_hex k);
+                            bytes_to_hex (List.concat out.so_chunks); err_str out.so_end]
+       | Err e -> "err " ^ err_str e) | _ -> failwith "args");
 ]
 
 let () =
